@@ -169,3 +169,30 @@ def check_accounting(ctx, delivered, returned_total, status):
         ctx.observe("complete", complete)
         ctx.require(returned_total == complete, "complete-pdu-not-accounted", f"returned!=complete")
     return complete
+
+
+# ---------------------------------------------------------------------- splitting the raw-bytes exploration
+def raw_parts(n):
+    """work split for all byte strings of length n (n >= 7): by the outer identifier and length octets"""
+    if n < 7:
+        return [None]
+    return ["x"] + [f"L{k}" for k in range(0, n - 1)] + ["short", "long"]
+
+
+def assume_part(ctx, data, part):
+    n = len(data)
+    if part is None or n == 0:
+        return
+    if isinstance(part, int):  # legacy: 16 classes of the first octet
+        ctx.assume(ctx.all(data[0] >= part * 16, data[0] < (part + 1) * 16))
+        return
+    if part == "x":
+        ctx.assume(data[0] != 0x30)
+        return
+    ctx.assume(data[0] == 0x30)
+    if part == "short":
+        ctx.assume(ctx.all(data[1] >= n - 1, data[1] < 128))
+    elif part == "long":
+        ctx.assume(data[1] >= 128)
+    else:
+        ctx.assume(data[1] == int(part[1:]))
